@@ -77,13 +77,17 @@ var _ http.Header
 //@   ensures[C15] result1 == nil ==> result0 != nil && (forall k int :: 0 <= k && k < len(result0.Events) ==> result0.Events[k] != nil)
 //@   ensures[C13,C15] result1 == nil && result0.Events != nil ==> result0.Model == nil && result0.Collection == nil
 //@   ensures[C13,C15] result1 == nil && result0.Events == nil && result0.Model != nil ==> result0.Collection == nil
+//@   ensures[C15] result1 == nil ==> (forall k string :: has(result0.Model, k) ==> result0.Model[k].Type >= ValueTypePrimitive) &&
+//@       (forall i int :: 0 <= i && i < len(result0.Collection) ==> result0.Collection[i].Type >= ValueTypePrimitive)
 //@   ensures result1 != nil ==> result0 == nil && reserr.predErrOK(result1)
 //@   assigns alloc()
 //@   safety[C15]
 //@   loop 1 invariant res == r.Result && res != nil && r.Error == nil && res.Events != nil && res.Model == nil && res.Collection == nil
 //@   loop 1 invariant forall k int :: 0 <= k && k < rangeidx1 ==> res.Events[k] != nil
 //@   loop 2 invariant res == r.Result && res != nil && r.Error == nil && res.Events == nil && res.Model != nil && res.Collection == nil
+//@   loop 2 invariant forall k string :: visited2[k] && has(res.Model, k) ==> res.Model[k].Type >= ValueTypePrimitive
 //@   loop 3 invariant res == r.Result && res != nil && r.Error == nil && res.Events == nil && res.Model == nil && res.Collection != nil
+//@   loop 3 invariant forall i int :: 0 <= i && i < rangeidx3 ==> res.Collection[i].Type >= ValueTypePrimitive
 
 // The meta object of every decoded access and call/auth answer - result, resource or error -
 // has canonical header keys.
